@@ -125,10 +125,10 @@ def c12_roundtrip(gen: int, shape: int, li: int, w: int, cx: int, hist: bool, ta
   gen 0: new_codegen, 1: auto_config_codegen; cx: max_expression_complexity (-1 = None); sub: 0 no sub-fixture, 1 the
   designated inner node as a sub-fixture, 2 the middle node (shapes 4 / 5).  The generator raises, or the emitted text
   compiles, runs and yields a configuration canonically equal to the input.
-  require: 0 <= gen <= 1 and 0 <= shape <= 5 and 0 <= li < 40 and 0 <= w <= 5 and -1 <= cx <= 3 and 0 <= sub <= 3
+  require: 0 <= gen <= 1 and 0 <= shape <= 5 and 0 <= li < 40 and 0 <= w <= 5 and -1 <= cx <= 3 and 0 <= sub <= 4
   """
   import crosshair
-  gen, shape, li, w, cx, sub = _conc(gen, 0, 1), _conc(shape, 0, 5), _conc(li, 0, NLEAF - 1), _conc(w, 0, 5), _conc(cx, -1, 3), _conc(sub, 0, 3)
+  gen, shape, li, w, cx, sub = _conc(gen, 0, 1), _conc(shape, 0, 5), _conc(li, 0, NLEAF - 1), _conc(w, 0, 5), _conc(cx, -1, 3), _conc(sub, 0, 4)
   hist, tag, two = bool(hist), bool(tag), bool(two)
   with crosshair.NoTracing():
     root, n0 = _member(shape, li, w, tag, two)
@@ -147,6 +147,15 @@ def c12_roundtrip(gen: int, shape: int, li: int, w: int, cx: int, hist: bool, ta
       kids = [v for v in mids[0].__arguments__.values() if isinstance(v, fdl.Buildable)] if mids else []
       if not kids:
         return True
+      kwargs['sub_fixtures'] = {'middle_fixture': mids[0], 'nested_fixture': kids[0]}
+    elif sub == 4:
+      # ... and the nested sub-fixture is referenced by the top-level configuration as well
+      mids = [v for v in root.__arguments__.values() if isinstance(v, fdl.Buildable)]
+      kids = [v for v in mids[0].__arguments__.values() if isinstance(v, fdl.Buildable)] if mids else []
+      if not kids or 'z' in root.__arguments__ or 'z' not in root.__signature_info__.parameters:
+        return True
+      root.z = [kids[0]]
+      before = canon(root)
       kwargs['sub_fixtures'] = {'middle_fixture': mids[0], 'nested_fixture': kids[0]}
     fn = new_codegen.new_codegen if gen == 0 else ac_codegen.auto_config_codegen
     try:
@@ -231,7 +240,7 @@ def obligations(tier, seed):
           cubes.append(Cube(f'g{gen}_s{shape}_c{cx}', [], fix, est=NLEAF * 2))
         else:
           for w in range(6):
-            for sub in range(4):
+            for sub in range(5):
               cubes.append(Cube(f'g{gen}_s{shape}_c{cx}_w{w}_u{sub}', [], dict(gen=gen, shape=shape, cx=cx, w=w, sub=sub),
                                 est=NLEAF * 8))
   vcubes = [Cube(f'n{n}', [], dict(nest=n), est=NLEAF) for n in range(8)]
@@ -239,7 +248,7 @@ def obligations(tier, seed):
   smoke = dict(gen=0, shape=1, li=0, w=1, cx=-1, hist=False, tag=False, two=False, sub=0)
   return [
       Obligation('c12_roundtrip', c12_roundtrip, cubes, timeout=t, path_timeout=120, enumerated=True, smoke=smoke,
-                 extra_smokes=[dict(smoke, gen=k % 2, shape=k % 6, li=k, w=k % 6, cx=k % 5 - 1, hist=bool(k % 2), sub=k % 4)
+                 extra_smokes=[dict(smoke, gen=k % 2, shape=k % 6, li=k, w=k % 6, cx=k % 5 - 1, hist=bool(k % 2), sub=k % 5)
                                for k in range(0, NLEAF, 3)]),
       Obligation('c12_value_expr', c12_value_expr, vcubes, timeout=t, path_timeout=120, enumerated=True,
                  smoke=dict(li=3, nest=1)),
